@@ -13,8 +13,8 @@ RULE = (
     "non-trivial = every case; distinct = (block, width, flags, vector seed / chunk)"
 )
 BUDGET = {
-    "quick": {"workers": 16, "cases": 240, "secs": 60, "min_cases": 1920},
-    "thorough": {"workers": 16, "rounds": 4, "cases": 700, "secs": 420, "min_cases": 22400},
+    "quick": {"workers": 16, "cases": 240, "secs": 90, "min_cases": 1920, "case_secs": 60},
+    "thorough": {"workers": 16, "rounds": 4, "cases": 700, "secs": 420, "min_cases": 22400, "case_secs": 60},
 }
 ANCHORS = ["logic:adder", "logic:mux", "logic:popcount", "logic:half_adder", "logic:full_adder", "utils:clog2", "utils:int_to_bin", "utils:bin_to_int"]
 
@@ -87,6 +87,13 @@ def check(case, ctx):
                 want = want[::-1]
             if w == 0:
                 want = bits  # width 0 is degenerate (zfill(0) of '0'); only the round trip is required
+            if case["seed"] % 2:
+                # the decoder gets its argument as a list and must leave it alone (decoding twice gives the same number)
+                b = list(b)
+                ctx.call(cg.utils.bin_to_int, b, lend)
+                if list(b) != bits:
+                    ctx.violation("bin_argument_modified", f"bin_to_int({bits},{lend}) changed its argument to {b}")
+                    break
             ok2, back = ctx.call(cg.utils.bin_to_int, b, lend)
             if bits != want or len(bits) != max(w, len(bits)) or not ok2 or back != i:
                 ctx.violation("bin_roundtrip", f"int_to_bin({i},{w},lend={lend})={b!r}, bin_to_int gives {back!r}")
@@ -127,6 +134,14 @@ def check(case, ctx):
             return
     net = Net.of(c)
     probs = own_lint(net)
+    if case["seed"] % 4 == 1:
+        # earlier lint calls - other options, other (malformed) circuits - must not influence this one
+        bad = cg.Circuit(name="malformed")
+        bad.add("g", "and", output=True)
+        bad.add("h", "buf", fanin=["g"])
+        ctx.call(cg.lint, bad, fail_fast=False)
+        ctx.call(cg.lint, c, fail_fast=bool(case["seed"] & 8), unloaded=bool(case["seed"] & 16), undriven=not (case["seed"] & 32), single_input_gates=True)
+        ctx.count("lint_after_other_lint_calls")
     okl, rl = ctx.call(cg.lint, c)
     if okl and case["seed"] % 3 == 0:
         okl, rl = ctx.call(cg.lint, c, fail_fast=False, single_input_gates=False)
@@ -230,6 +245,8 @@ def gates(counters, table, tier):
     for k in ("block:adder", "block:mux", "block:popcount", "block:half_adder", "block:full_adder", "cmp:clog2", "cmp:bin_roundtrip", "exhaustive_blocks", "sampled_blocks"):
         if counters.get(k, 0) < 3:
             out.append(f"{k} seen {counters.get(k, 0)} times")
+    if counters.get("lint_after_other_lint_calls", 0) < 20:
+        out.append(f"lint after other lint calls seen {counters.get('lint_after_other_lint_calls', 0)} times")
     if counters.get("width_1025", 0) < 2:
         out.append(f"width 1025 (mux and popcount) seen {counters.get('width_1025', 0)} times")
     return out
